@@ -59,7 +59,9 @@ def run(chk, tier):
         # make halting programs frequent: force the feature on in every second program
         progs = []
         for i in range(m):
-            g = progen.ProgGen(((chk.seed + 7) % 1000003 + k) * 100003 + i, emph=("halt",) if i % 2 == 0 else ())
+            # (emphasis) halts in every second program; deep closure nesting in every fifth
+            g = progen.ProgGen(((chk.seed + 7) % 1000003 + k) * 100003 + i,
+                               emph=(("halt",) if i % 2 == 0 else ()) + (("deep",) if i % 5 == 4 else ()))
             if i % 2 == 0:
                 g.feat |= {"halt", "fun"}
             if i % 3 == 1:
